@@ -40,7 +40,8 @@ def run(res, only=None):
                 "inverse(M) on the same random matrices and on nearly singular ones: |det| |(M X - I)_ij| <= 64 u sum_k |M_ik| (P_kj + Perm |X_kj|) "
                 "and the mirrored bound (P, Perm: magnitude sums of the cofactor / determinant monomials).")
     res.assumptions = ["on small-integer entries every intermediate of every backend is exactly representable, so comparison is exact",
-                       "the inverse is judged through its residuals against a polynomial condition number, not against adj/det entry by entry"]
+                       "the inverse is judged through its residuals against a polynomial condition number, not against adj/det entry by entry",
+                       "recorded operands have moderate exponents: no intermediate product (determinant, 1/det) overflows or underflows (DESIGN 7.3)"]
 
 
 def replay(res, path, only=None):
